@@ -44,5 +44,5 @@ Definition Compliant (t : ctype) (v : value) : Prop :=
   | _ => exists q z lo hi, v = VRat q /\ q == inject_Z z /\ int_bounds t = Some (lo, hi) /\ (lo <= z <= hi)%Z
   end.
 
-(* a string that str.encode("utf8") refuses: the witness class of C12_crash_refuted *)
+(* a string that str.encode("utf8") refuses *)
 Definition lone_surrogate (s : list Z) : Prop := exists c, In c s /\ (55296 <= c <= 57343)%Z.
